@@ -182,12 +182,19 @@ def run_case(ck, desc):
     OBJ.clear()
     NODES.clear()
     inplace_max = float(np.sum(gas_obs)) * desc["inplace_factor"]
+    # the caller's first guess of the initial pressure: usually above the frac-face pressures, but a
+    # third of the time BELOW the highest one (a choked-back start-up): the declared lower limit is
+    # the highest frac-face pressure regardless
+    guess = min(desc["imax"], p_i * 1.05)
+    if desc["seed"] % 3 == 0:
+        guess = 0.8 * float(np.nanmax(p_obs))
+        ck.count("fits_with_initial_guess_below_highest_frac_face_pressure")
     with warnings.catch_warnings(), np.errstate(all="ignore"):
         warnings.simplefilter("ignore")
         result = fit_production_pressure(
             prod,
             pvt,
-            pressure_initial=min(desc["imax"], p_i * 1.05),
+            pressure_initial=guess,
             filter_window_size=desc["window"],
             pressure_imax=desc["imax"],
             inplace_max=inplace_max,
@@ -263,7 +270,7 @@ def run_case(ck, desc):
     with warnings.catch_warnings(), np.errstate(all="ignore"):
         warnings.simplefilter("ignore")
         result2 = fit_production_pressure(
-            prod, pvt, pressure_initial=min(desc["imax"], p_i * 1.05), filter_window_size=desc["window"], pressure_imax=desc["imax"],
+            prod, pvt, pressure_initial=guess, filter_window_size=desc["window"], pressure_imax=desc["imax"],
             inplace_max=inplace_max, filter_zero_prod_days=desc["filter"], n_iter=max(12, desc["n_iter"]), params=P,
         )
     OBJ.clear()
